@@ -41,22 +41,12 @@ def shard_name(sh):
         (" prefix=[%s]" % sh["prefix"]) if sh["prefix"] else "")
 
 
-def budget_after_build(ctx):
-    """bin/check starts the clock before it (re)builds libsimgrid; after an edit of /repo that build can take longer than
-    the whole quick budget. The exploration budget is counted from the end of the build instead."""
-    if time.time() - ctx.t0 > 45:
-        b = os.environ.get("VERIF_BUDGET_S")
-        ctx.deadline = common.Deadline(float(b) if b else (150 if ctx.quick else 1200))
-        common.log("lmmx: %.0fs spent building before the check started; exploration budget restarted" % (time.time() - ctx.t0))
-
-
 def explore(ctx, shards, increments, reserve=20):
     """Staged iterative deepening. Every shard has a family label sh["fam"] and a base depth sh["base"].
     Stage 0 runs every shard at its base depth; then for k = 1..increments and for each family (in order of first
     appearance) one stage runs that family at base+k. A stage is completed or discarded; a stage is not started when
     its predicted duration does not fit in what is left of the budget.
     Returns (shards, deepest completed result per shard, stage log, all_completed)."""
-    budget_after_build(ctx)
     exe = harness()
     order = list(range(len(shards)))
     random.Random(ctx.seed).shuffle(order)        # the seed only chooses the order of the shards
